@@ -216,7 +216,7 @@ def check(tier: str, replay: Optional[str] = None) -> int:
         stats["snoop"] = snoop.check_into(v, PROP)    # type: ignore[assignment]
         print(f"[C06] snoop sessions: {stats['snoop']}", flush=True)
     if stats["must_nonempty"] == 0 or stats["dontcare"] == 0 or stats["responses"] == 0:
-        raise tlc.MachineryError(f"vacuity: {stats}")
+        v.vacuous(f"vacuity: {stats}")
     cov = {"states": res.distinct, "transitions": res.generated, "traces_validated_against_impl": stats["layers"],
            "evaluations": stats["messages"] + stats["own"] + stats["responses"] + stats["groups"],
            "distinct_nontrivial": stats["messages"],
